@@ -3,9 +3,15 @@
 package plugin
 
 import (
+	"bufio"
+	"bytes"
+	"errors"
+	"os"
+	"path/filepath"
 	"strings"
 
 	"filippo.io/age"
+	"filippo.io/age/internal/format"
 	V "filippo.io/age/internal/zzverif"
 )
 
@@ -138,4 +144,412 @@ func Harness_C17_identity_string() {
 	_, uerr := id.Unwrap([]*age.Stanza{{Type: "x", Args: []string{"a"}}})
 	V.Assert(uerr != nil || !V.Symbolic(), "unwrap succeeded without a plugin")
 	checkExec(want)
+}
+
+// ---------------------------------------------------------------------------
+// C16: the client follows the plugin protocol
+
+type pmsg struct {
+	typ  string
+	args []string
+	body []byte
+	raw  []byte // if non-nil, sent as is (malformed stanza)
+	eof  bool   // the plugin stops here
+}
+
+// scriptMessage returns the k-th message of the plugin's side of the
+// conversation, chosen by a symbolic selector over the protocol's alphabet in
+// valid and malformed variants.
+func scriptMessage(k int) pmsg {
+	id := string(rune('0' + k))
+	idx := []string{"0", "1", "x", "00"}
+	switch V.Int("m"+id, 0, 10) {
+	case 0:
+		return pmsg{typ: "done"}
+	case 1:
+		m := pmsg{typ: "recipient-stanza", body: V.Bytes("rsb"+id, 2)}
+		switch V.Int("rsargs"+id, 0, 3) {
+		case 0:
+		case 1:
+			m.args = []string{idx[V.Int("rsi"+id, 0, 3)]}
+		case 2:
+			m.args = []string{idx[V.Int("rsi"+id, 0, 3)], "X25519"}
+		case 3:
+			m.args = []string{idx[V.Int("rsi"+id, 0, 3)], "X25519", "arg"}
+		}
+		return m
+	case 2:
+		return pmsg{typ: "labels", args: [][]string{nil, {"a"}, {"a", "b"}}[V.Int("nl"+id, 0, 2)]}
+	case 3:
+		return pmsg{typ: "error", args: []string{"internal"}, body: []byte("boom" + id)}
+	case 4:
+		return pmsg{typ: "msg", body: []byte("hello")}
+	case 5:
+		if V.Bool("secret" + id) {
+			return pmsg{typ: "request-secret", body: []byte("pin")}
+		}
+		return pmsg{typ: "request-public", body: []byte("name")}
+	case 6:
+		arg := func(n string) string {
+			if V.Bool(n) {
+				return "eWVz" // "yes"
+			}
+			return "!bad"
+		}
+		m := pmsg{typ: "confirm", body: []byte("sure?")}
+		switch V.Int("cargs"+id, 0, 3) {
+		case 1:
+			m.args = []string{arg("cy" + id)}
+		case 2:
+			m.args = []string{arg("cy" + id), arg("cn" + id)}
+		case 3:
+			m.args = []string{"eWVz", "bm8", "bm8"}
+		}
+		return m
+	case 7:
+		return pmsg{typ: "frobnicate", args: []string{"x"}}
+	case 8:
+		m := pmsg{typ: "file-key", body: V.Bytes("fkb"+id, 16)}
+		switch V.Int("fkargs"+id, 0, 2) {
+		case 1:
+			m.args = []string{idx[V.Int("fki"+id, 0, 3)]}
+		case 2:
+			m.args = []string{"0", "0"}
+		}
+		return m
+	case 9:
+		return pmsg{eof: true}
+	}
+	return pmsg{raw: [][]byte{[]byte("-> \n"), []byte("junk\n"), []byte("-> msg\nAAAA")}[V.Int("raw"+id, 0, 2)]}
+}
+
+type fakeConn struct {
+	script     *bytes.Reader
+	transcript bytes.Buffer
+}
+
+var theConn *fakeConn
+
+func fakeOpen(name, protocol string) (*clientConnection, error) {
+	return &clientConnection{Reader: theConn.script, Writer: &theConn.transcript, close: func() {}}, nil
+}
+
+func fakeClose(cc *clientConnection) error { return nil }
+
+// converse runs one Wrap (side 0) or Unwrap (side 1) against the scripted
+// plugin and returns what the client wrote. Inside the engine the connection
+// is an in-memory pair installed by function overrides; natively a shell
+// script plays the plugin through the repository's testOnlyPluginPath seam.
+func converse(side int, script []byte, ui *ClientUI, fileKey []byte, stanzas []*age.Stanza) (transcript []byte, outS []*age.Stanza, outL []string, outK []byte, err error) {
+	const name = "zz"
+	if V.Symbolic() {
+		theConn = &fakeConn{script: bytes.NewReader(script)}
+		V.Override("filippo.io/age/plugin.openClientConnection", fakeOpen)
+		V.Override("(*filippo.io/age/plugin.clientConnection).Close", fakeClose)
+		// the grease value is irrelevant to the protocol logic: one fixed value
+		// (the hexadecimal rendering of every value is well formed by construction)
+		V.Override("math/rand.Int", func() int { return 0x5eed1234 })
+	} else {
+		dir, derr := os.MkdirTemp("", "zzplugin")
+		if derr != nil {
+			panic(derr)
+		}
+		defer os.RemoveAll(dir)
+		prog := filepath.Join(dir, "age-plugin-"+name)
+		os.WriteFile(prog+".out", script, 0600)
+		os.WriteFile(prog, []byte("#!/bin/sh\ntrap '' INT\ncat \"$0.out\"\nexec 1>&-\ncat > \"$0.in\"\n"), 0700)
+		testOnlyPluginPath = dir
+		defer func() {
+			testOnlyPluginPath = ""
+			transcript, _ = os.ReadFile(prog + ".in")
+		}()
+	}
+	if side == 0 {
+		r := &Recipient{name: name, encoding: "age1zz1qqqqqqqq", ui: ui}
+		outS, outL, err = r.WrapWithLabels(fileKey)
+	} else {
+		i := &Identity{name: name, encoding: "AGE-PLUGIN-ZZ-1QQQQQQQQ", ui: ui}
+		outK, err = i.Unwrap(stanzas)
+	}
+	if V.Symbolic() {
+		transcript = theConn.transcript.Bytes()
+	}
+	return
+}
+
+func marshalStanza(t string, args []string, body []byte) []byte {
+	var b bytes.Buffer
+	(&format.Stanza{Type: t, Args: args, Body: body}).Marshal(&b)
+	return b.Bytes()
+}
+
+var digitsOnly = func() (t [256]bool) {
+	for c := '0'; c <= '9'; c++ {
+		t[c] = true
+	}
+	return
+}()
+
+// atoiRef is the reference reading of a file index: decimal digits (an
+// optional sign is not used by the script); "00" is the number zero.
+func atoiRef(s string) (int, bool) {
+	if s == "" {
+		return 0, false
+	}
+	n := 0
+	for i := 0; i < len(s); i++ {
+		if !digitsOnly[s[i]] {
+			return 0, false
+		}
+		n = n*10 + int(s[i]-'0')
+	}
+	return n, true
+}
+
+// Harness_C16_conversation: every conversation of up to maxmsgs plugin messages
+// over the protocol alphabet (valid and malformed variants, end of stream at
+// any point), for the recipient and the identity state machine and every
+// combination of available UI callbacks and their outcomes: the client's
+// replies and final result are those of the reference automaton written from
+// the protocol description, and what it sends first is complete and well formed.
+func Harness_C16_conversation() {
+	side := V.Int("side", 0, 1)
+	n := V.Int("msgs", 0, V.Param("maxmsgs", 2))
+	var msgs []pmsg
+	var script []byte
+	for k := 0; k < n; k++ {
+		m := scriptMessage(k)
+		msgs = append(msgs, m)
+		if m.eof {
+			break
+		}
+		if m.raw != nil {
+			script = append(script, m.raw...)
+			break
+		}
+		script = append(script, marshalStanza(m.typ, m.args, m.body)...)
+		if m.typ == "done" {
+			break
+		}
+	}
+	// UI callbacks: absent, failing, or answering. A mode is only chosen (and
+	// so only multiplies the paths) if the script contains a message it matters to.
+	uses := func(types ...string) bool {
+		for _, m := range msgs {
+			for _, t := range types {
+				if m.typ == t {
+					return true
+				}
+			}
+		}
+		return false
+	}
+	ui := &ClientUI{}
+	displayMode, requestMode, confirmMode := 0, 0, 0
+	if uses("msg") {
+		displayMode = V.Int("display", 0, 2)
+	}
+	if uses("request-secret", "request-public") {
+		requestMode = V.Int("request", 0, 2)
+	}
+	if uses("confirm") {
+		confirmMode = V.Int("confirm", 0, 3)
+	}
+	if displayMode > 0 {
+		ui.DisplayMessage = func(name, message string) error {
+			if displayMode == 1 {
+				return errors.New("ui failure")
+			}
+			return nil
+		}
+	}
+	if requestMode > 0 {
+		ui.RequestValue = func(name, prompt string, secret bool) (string, error) {
+			if requestMode == 1 {
+				return "", errors.New("ui failure")
+			}
+			return "value", nil
+		}
+	}
+	if confirmMode > 0 {
+		ui.Confirm = func(name, prompt, yes, no string) (bool, error) {
+			if confirmMode == 1 {
+				return false, errors.New("ui failure")
+			}
+			return confirmMode == 2, nil
+		}
+	}
+	fileKey := []byte("0123456789abcdef")
+	hdr := []*age.Stanza{{Type: "zz", Args: []string{"a1"}, Body: []byte("bd")}, {Type: "X25519", Args: []string{"sh"}, Body: nil}}
+	transcript, gotS, gotL, gotK, err := converse(side, script, ui, fileKey, hdr)
+
+	// --- reference automaton -------------------------------------------------
+	var replies []byte
+	var wantS []*age.Stanza
+	var wantL []string
+	var wantK []byte
+	labelsSeen, keySeen, aborted, finished := false, false, false, false
+	errText := ""
+	for _, m := range msgs {
+		if m.eof || m.raw != nil {
+			aborted = true
+			break
+		}
+		stop := false
+		switch {
+		case m.typ == "done":
+			finished, stop = true, true
+		case m.typ == "error":
+			replies = append(replies, marshalStanza("ok", nil, nil)...)
+			aborted, stop, errText = true, true, string(m.body)
+		case m.typ == "recipient-stanza" && side == 0:
+			i, numeric := 0, false
+			if len(m.args) >= 1 {
+				i, numeric = atoiRef(m.args[0])
+			}
+			if len(m.args) < 2 || !numeric || i != 0 {
+				aborted, stop = true, true
+				break
+			}
+			wantS = append(wantS, &age.Stanza{Type: m.args[1], Args: m.args[2:], Body: m.body})
+			replies = append(replies, marshalStanza("ok", nil, nil)...)
+		case m.typ == "labels" && side == 0:
+			if labelsSeen {
+				aborted, stop = true, true
+				break
+			}
+			labelsSeen = true
+			wantL = m.args
+			replies = append(replies, marshalStanza("ok", nil, nil)...)
+		case m.typ == "file-key" && side == 1:
+			i, numeric := 0, false
+			if len(m.args) == 1 {
+				i, numeric = atoiRef(m.args[0])
+			}
+			if len(m.args) != 1 || !numeric || i != 0 || keySeen {
+				aborted, stop = true, true
+				break
+			}
+			keySeen = true
+			wantK = m.body
+			replies = append(replies, marshalStanza("ok", nil, nil)...)
+		case m.typ == "msg":
+			if displayMode == 2 {
+				replies = append(replies, marshalStanza("ok", nil, nil)...)
+			} else {
+				replies = append(replies, marshalStanza("fail", nil, nil)...)
+			}
+		case m.typ == "request-secret" || m.typ == "request-public":
+			if requestMode == 2 {
+				replies = append(replies, marshalStanza("ok", nil, []byte("value"))...)
+			} else {
+				replies = append(replies, marshalStanza("fail", nil, nil)...)
+			}
+		case m.typ == "confirm":
+			if len(m.args) != 1 && len(m.args) != 2 {
+				aborted, stop = true, true
+				break
+			}
+			if confirmMode == 0 {
+				replies = append(replies, marshalStanza("fail", nil, nil)...)
+				break
+			}
+			bad := false
+			for _, a := range m.args {
+				if a == "!bad" {
+					bad = true
+				}
+			}
+			if bad {
+				aborted, stop = true, true
+				break
+			}
+			switch confirmMode {
+			case 1:
+				replies = append(replies, marshalStanza("fail", nil, nil)...)
+			case 2:
+				replies = append(replies, marshalStanza("ok", []string{"yes"}, nil)...)
+			case 3:
+				replies = append(replies, marshalStanza("ok", []string{"no"}, nil)...)
+			}
+		default:
+			replies = append(replies, marshalStanza("unsupported", nil, nil)...)
+		}
+		if stop {
+			break
+		}
+	}
+	if !finished {
+		aborted = true // the plugin stopped mid-conversation
+	}
+
+	// --- phase 1: complete and well formed -----------------------------------
+	sr := format.NewStanzaReader(bufio.NewReader(bytes.NewReader(transcript)))
+	var p1 []*format.Stanza
+	p1len := 0
+	for {
+		s, rerr := sr.ReadStanza()
+		if rerr != nil {
+			break
+		}
+		p1 = append(p1, s)
+		p1len += len(marshalStanza(s.Type, s.Args, s.Body))
+		if s.Type == "done" {
+			break
+		}
+	}
+	if side == 0 {
+		ok := len(p1) == 5 && p1[0].Type == "add-recipient" && len(p1[0].Args) == 1 && p1[0].Args[0] == "age1zz1qqqqqqqq" &&
+			strings.HasPrefix(p1[1].Type, "grease-") && p1[2].Type == "wrap-file-key" && len(p1[2].Args) == 0 && bytes.Equal(p1[2].Body, fileKey) &&
+			p1[3].Type == "extension-labels" && p1[4].Type == "done"
+		V.Assert(ok, "what the client sends first (recipient, grease, file key, label extension, done) is not complete and well formed")
+	} else {
+		ok := len(p1) == 3+len(hdr) && p1[0].Type == "add-identity" && len(p1[0].Args) == 1 && p1[0].Args[0] == "AGE-PLUGIN-ZZ-1QQQQQQQQ" &&
+			strings.HasPrefix(p1[1].Type, "grease-") && p1[len(p1)-1].Type == "done"
+		for k := range hdr {
+			if !ok {
+				break
+			}
+			s := p1[2+k]
+			ok = s.Type == "recipient-stanza" && len(s.Args) == 2+len(hdr[k].Args) && s.Args[0] == "0" && s.Args[1] == hdr[k].Type && bytes.Equal(s.Body, hdr[k].Body)
+		}
+		V.Assert(ok, "what the client sends first (identity, grease, stanzas, done) is not complete and well formed")
+	}
+	V.Assert(p1len <= len(transcript), "transcript shorter than its first phase")
+	if p1len > len(transcript) {
+		return
+	}
+
+	// --- phase 2: replies and result -----------------------------------------
+	V.Assert(bytes.Equal(transcript[p1len:], replies), "the client's replies differ from those the protocol prescribes")
+	switch {
+	case aborted:
+		V.Reach("aborted")
+		V.Assert(err != nil, "a conversation that must fail returned success")
+		if errText != "" && err != nil {
+			V.Assert(strings.Contains(err.Error(), errText), "the plugin's error text is not reported")
+		}
+		if side == 1 && err != nil {
+			V.Assert(!errors.Is(err, age.ErrIncorrectIdentity), "a protocol failure was reported as a mere non-matching identity")
+		}
+	case side == 0 && len(wantS) == 0:
+		V.Reach("no-stanza")
+		V.Assert(err != nil, "a wrap that yields no stanza did not fail")
+	case side == 0:
+		V.Reach("wrapped")
+		V.Assert(err == nil, "a well-formed recipient conversation failed")
+		V.Assert(len(gotS) == len(wantS), "stanza count differs")
+		if len(gotS) == len(wantS) {
+			for k := range gotS {
+				V.Assert(gotS[k].Type == wantS[k].Type && strings.Join(gotS[k].Args, " ") == strings.Join(wantS[k].Args, " ") && bytes.Equal(gotS[k].Body, wantS[k].Body), "returned stanza differs from the one the plugin sent")
+			}
+		}
+		V.Assert(strings.Join(gotL, " ") == strings.Join(wantL, " "), "returned labels differ from the ones the plugin sent")
+	case !keySeen:
+		V.Reach("no-key")
+		V.Assert(gotK == nil && errors.Is(err, age.ErrIncorrectIdentity), "an unwrap that yields no file key is not reported as an incorrect identity")
+	default:
+		V.Reach("unwrapped")
+		V.Assert(err == nil && bytes.Equal(gotK, wantK), "returned file key differs from the one the plugin sent")
+	}
 }
